@@ -1,12 +1,488 @@
-//! Extension module (Tier A): owner fills in. Output: coq/gen/PlanFacts.v
+//! Extension module (Tier A) for C02. Output: coq/gen/PlanFacts.v
 //! Contract: return (text of the .v file, report lines). Each report line is one JSON object
 //! {"item":"PlanFacts.<name>","file":"<rust file>","ok":true|false[,"error":"..."]}.
 //! Fail closed: when a site is not recognised, OMIT the Gallina definition (so dependent proofs stop
 //! compiling) and push an ok:false report line.
+//!
+//! Regenerated from core-relations/src/free_join/{plan.rs,execute.rs}:
+//!   mat_mode_kind      <- enum MatScanMode (variants, source order)
+//!   join_stage_kind    <- enum JoinStage (variants; the one with a `mode: MatScanMode` field carries it)
+//!   sort_barrier       <- the `matches!` pattern of sort_plan_by_size (stages that never move)
+//!   leaf_scan_mat_mode <- the guard of the FusedIntersectMat arm of recompute_leaf_scans
+//!   resort_guard       <- `cur_size > 32 && cur % 3 == 1 && ..` of run_plan
+//!   mat_row_layout     <- InPlaceMaterializer/ScopedMaterializer::push_bindings (key = msg_vars, row = val_vars)
+use quote::ToTokens;
+use syn::parse::Parser;
+use syn::visit::Visit;
 
-pub fn generate(_repo: &std::path::Path) -> (String, Vec<String>) {
-    (
-        "(* GENERATED by /verif/translator (x_plans.rs): nothing extracted yet *)\n".to_string(),
-        Vec::new(),
-    )
+fn toks<T: ToTokens>(t: &T) -> String {
+    t.to_token_stream().to_string().chars().filter(|c| !c.is_whitespace()).collect()
+}
+
+fn line(item: &str, file: &str, res: &Result<String, String>) -> String {
+    match res {
+        Ok(_) => format!("{{\"item\":\"PlanFacts.{item}\",\"file\":\"{file}\",\"ok\":true}}"),
+        Err(e) => format!(
+            "{{\"item\":\"PlanFacts.{item}\",\"file\":\"{file}\",\"ok\":false,\"error\":\"{}\"}}",
+            e.replace('\\', "/").replace('"', "'")
+        ),
+    }
+}
+
+struct Fns<'a> {
+    want: &'a str,
+    impl_for: Option<&'a str>,
+    cur_impl: Option<String>,
+    found: Vec<syn::Block>,
+}
+impl<'ast, 'a> Visit<'ast> for Fns<'a> {
+    fn visit_item_fn(&mut self, f: &'ast syn::ItemFn) {
+        if self.impl_for.is_none() && f.sig.ident == self.want {
+            self.found.push((*f.block).clone());
+        }
+        syn::visit::visit_item_fn(self, f);
+    }
+    fn visit_item_impl(&mut self, i: &'ast syn::ItemImpl) {
+        let prev = self.cur_impl.take();
+        self.cur_impl = Some(toks(&*i.self_ty));
+        syn::visit::visit_item_impl(self, i);
+        self.cur_impl = prev;
+    }
+    fn visit_impl_item_fn(&mut self, f: &'ast syn::ImplItemFn) {
+        if f.sig.ident == self.want {
+            let ok = match (self.impl_for, &self.cur_impl) {
+                (None, _) => true,
+                (Some(w), Some(c)) => c.starts_with(w),
+                _ => false,
+            };
+            if ok {
+                self.found.push(f.block.clone());
+            }
+        }
+        syn::visit::visit_impl_item_fn(self, f);
+    }
+}
+
+fn find_fn(file: &syn::File, name: &str, impl_for: Option<&str>) -> Result<syn::Block, String> {
+    let mut v = Fns { want: name, impl_for, cur_impl: None, found: Vec::new() };
+    v.visit_file(file);
+    if v.found.len() == 1 {
+        Ok(v.found.remove(0))
+    } else {
+        Err(format!("expected exactly one fn {name}, found {}", v.found.len()))
+    }
+}
+
+fn find_enum<'a>(file: &'a syn::File, name: &str) -> Result<&'a syn::ItemEnum, String> {
+    for it in &file.items {
+        if let syn::Item::Enum(e) = it {
+            if e.ident == name {
+                return Ok(e);
+            }
+        }
+    }
+    Err(format!("enum {name} not found"))
+}
+
+/// (scrutinee tokens, pattern) of a `matches!(e, pat)` without guard
+fn parse_matches(mac: &syn::Macro) -> Result<(String, syn::Pat), String> {
+    if !mac.path.is_ident("matches") {
+        return Err("not a matches! macro".into());
+    }
+    let parser = |input: syn::parse::ParseStream| -> syn::Result<(syn::Expr, syn::Pat, bool)> {
+        let e: syn::Expr = input.parse()?;
+        input.parse::<syn::Token![,]>()?;
+        let p = syn::Pat::parse_multi_with_leading_vert(input)?;
+        let guard = input.peek(syn::Token![if]);
+        if guard {
+            let _: proc_macro2::TokenStream = input.parse()?;
+        } else if input.peek(syn::Token![,]) {
+            input.parse::<syn::Token![,]>()?;
+        }
+        Ok((e, p, guard))
+    };
+    let (e, p, guard) = parser.parse2(mac.tokens.clone()).map_err(|e| format!("matches! body: {e}"))?;
+    if guard {
+        return Err("matches! with an `if` guard is not supported".into());
+    }
+    Ok((toks(&e), p))
+}
+
+fn flatten_or(p: &syn::Pat, out: &mut Vec<syn::Pat>) {
+    match p {
+        syn::Pat::Or(o) => {
+            for c in &o.cases {
+                flatten_or(c, out);
+            }
+        }
+        syn::Pat::Paren(pp) => flatten_or(&pp.pat, out),
+        other => out.push(other.clone()),
+    }
+}
+
+/// `MatScanMode::X` or `MatScanMode::X(_, ..)` -> "MX"
+fn mode_pat(p: &syn::Pat, modes: &[String]) -> Result<String, String> {
+    let path = match p {
+        syn::Pat::Path(pp) => &pp.path,
+        syn::Pat::TupleStruct(ts) => {
+            for e in &ts.elems {
+                if !matches!(e, syn::Pat::Wild(_) | syn::Pat::Rest(_)) {
+                    return Err(format!("mode pattern binds something: {}", toks(p)));
+                }
+            }
+            &ts.path
+        }
+        syn::Pat::Ident(pi) if pi.subpat.is_none() && pi.by_ref.is_none() => {
+            return Err(format!("mode pattern is a binding: {}", pi.ident));
+        }
+        _ => return Err(format!("unsupported mode pattern {}", toks(p))),
+    };
+    let segs: Vec<String> = path.segments.iter().map(|s| s.ident.to_string()).collect();
+    if segs.len() != 2 || segs[0] != "MatScanMode" {
+        return Err(format!("unsupported mode path {}", toks(path)));
+    }
+    let m = format!("M{}", segs[1]);
+    if !modes.contains(&m) {
+        return Err(format!("unknown mode {m}"));
+    }
+    Ok(m)
+}
+
+/// a pattern over JoinStage -> Coq match arms over join_stage_kind (lhs patterns)
+fn stage_pat_arms(p: &syn::Pat, kinds: &[(String, bool)], modes: &[String]) -> Result<Vec<String>, String> {
+    let mut alts = Vec::new();
+    flatten_or(p, &mut alts);
+    let mut arms = Vec::new();
+    for a in alts {
+        let ps = match &a {
+            syn::Pat::Struct(ps) => ps,
+            _ => return Err(format!("unsupported stage pattern {}", toks(&a))),
+        };
+        let segs: Vec<String> = ps.path.segments.iter().map(|s| s.ident.to_string()).collect();
+        if segs.len() != 2 || segs[0] != "JoinStage" {
+            return Err(format!("unsupported stage path {}", toks(&ps.path)));
+        }
+        let k = format!("K{}", segs[1]);
+        let has_mode = match kinds.iter().find(|(n, _)| *n == k) {
+            Some((_, m)) => *m,
+            None => return Err(format!("unknown stage kind {k}")),
+        };
+        let mut mode_alts: Option<Vec<String>> = None;
+        for f in &ps.fields {
+            let name = match &f.member {
+                syn::Member::Named(i) => i.to_string(),
+                _ => return Err("unnamed field".into()),
+            };
+            if name == "mode" && has_mode && f.colon_token.is_some() {
+                let mut ms = Vec::new();
+                flatten_or(&f.pat, &mut ms);
+                let mut v = Vec::new();
+                for m in &ms {
+                    v.push(mode_pat(m, modes)?);
+                }
+                mode_alts = Some(v);
+            } else {
+                return Err(format!("stage pattern constrains field `{name}`"));
+            }
+        }
+        if has_mode {
+            match mode_alts {
+                Some(v) => {
+                    for m in v {
+                        arms.push(format!("{k} {m}"));
+                    }
+                }
+                None => arms.push(format!("{k} _")),
+            }
+        } else {
+            arms.push(k);
+        }
+    }
+    Ok(arms)
+}
+
+struct IfFinder {
+    ifs: Vec<syn::ExprIf>,
+}
+impl<'ast> Visit<'ast> for IfFinder {
+    fn visit_expr_if(&mut self, i: &'ast syn::ExprIf) {
+        self.ifs.push(i.clone());
+        syn::visit::visit_expr_if(self, i);
+    }
+}
+
+struct ArmFinder {
+    arms: Vec<syn::Arm>,
+}
+impl<'ast> Visit<'ast> for ArmFinder {
+    fn visit_arm(&mut self, a: &'ast syn::Arm) {
+        self.arms.push(a.clone());
+        syn::visit::visit_arm(self, a);
+    }
+}
+
+struct ForFinder {
+    fors: Vec<syn::ExprForLoop>,
+}
+impl<'ast> Visit<'ast> for ForFinder {
+    fn visit_expr_for_loop(&mut self, f: &'ast syn::ExprForLoop) {
+        self.fors.push(f.clone());
+        syn::visit::visit_expr_for_loop(self, f);
+    }
+}
+
+fn gen_sort_barrier(exec: &syn::File, kinds: &[(String, bool)], modes: &[String]) -> Result<String, String> {
+    let body = find_fn(exec, "sort_plan_by_size", None)?;
+    // let mut last_pos = start; for i in start..instrs.len() { if matches!(..) { inner(last_pos..i); last_pos = i + 1; } } inner(last_pos..len); recompute
+    let stmts = &body.stmts;
+    if stmts.len() != 4 {
+        return Err(format!("sort_plan_by_size: expected 4 statements, found {}", stmts.len()));
+    }
+    if toks(&stmts[0]) != "letmutlast_pos=start;" {
+        return Err("sort_plan_by_size: first statement changed".into());
+    }
+    let fl = match &stmts[1] {
+        syn::Stmt::Expr(syn::Expr::ForLoop(fl), _) => fl,
+        _ => return Err("sort_plan_by_size: second statement is not a for loop".into()),
+    };
+    if toks(&*fl.pat) != "i" || toks(&*fl.expr) != "start..instrs.len()" {
+        return Err("sort_plan_by_size: loop header changed".into());
+    }
+    if fl.body.stmts.len() != 1 {
+        return Err("sort_plan_by_size: loop body changed".into());
+    }
+    let iff = match &fl.body.stmts[0] {
+        syn::Stmt::Expr(syn::Expr::If(i), _) => i,
+        _ => return Err("sort_plan_by_size: loop body is not an if".into()),
+    };
+    if iff.else_branch.is_some() {
+        return Err("sort_plan_by_size: if has an else".into());
+    }
+    if toks(&iff.then_branch) != "{sort_plan_by_size_inner(order,last_pos..i,instrs,binding_info);last_pos=i+1;}" {
+        return Err("sort_plan_by_size: barrier handling changed".into());
+    }
+    let mac = match &*iff.cond {
+        syn::Expr::Macro(m) => &m.mac,
+        _ => return Err("sort_plan_by_size: condition is not matches!".into()),
+    };
+    let (scrut, pat) = parse_matches(mac)?;
+    if scrut != "&instrs[i]" {
+        return Err("sort_plan_by_size: scrutinee changed".into());
+    }
+    if toks(&stmts[2]) != "sort_plan_by_size_inner(order,last_pos..instrs.len(),instrs,binding_info);" {
+        return Err("sort_plan_by_size: tail sort changed".into());
+    }
+    let arms = stage_pat_arms(&pat, kinds, modes)?;
+    let mut s = String::from("(** execute.rs sort_plan_by_size: the stages that are never moved by the run-time re-sort\n    (the stages between two of them are permuted freely) *)\nDefinition sort_barrier (k : join_stage_kind) : bool :=\n  match k with\n");
+    for a in &arms {
+        s.push_str(&format!("  | {a} => true\n"));
+    }
+    s.push_str("  | _ => false\n  end.\n");
+    Ok(s)
+}
+
+fn gen_leaf_scan(exec: &syn::File, modes: &[String]) -> Result<String, String> {
+    let body = find_fn(exec, "recompute_leaf_scans", None)?;
+    let mut af = ArmFinder { arms: Vec::new() };
+    af.visit_block(&body);
+    let mut found = Vec::new();
+    for a in &af.arms {
+        if let (syn::Pat::Struct(ps), Some((_, g))) = (&a.pat, &a.guard) {
+            if toks(&ps.path) == "JoinStage::FusedIntersectMat" {
+                found.push((ps.clone(), (**g).clone()));
+            }
+        }
+    }
+    if found.len() != 1 {
+        return Err(format!("recompute_leaf_scans: expected one guarded FusedIntersectMat arm, found {}", found.len()));
+    }
+    let g = &found[0].1;
+    let (l, r) = match g {
+        syn::Expr::Binary(b) if matches!(b.op, syn::BinOp::And(_)) => (&*b.left, &*b.right),
+        _ => return Err("recompute_leaf_scans: guard is not a conjunction".into()),
+    };
+    if toks(l) != "to_intersect.is_empty()" {
+        return Err("recompute_leaf_scans: first conjunct changed".into());
+    }
+    let mac = match r {
+        syn::Expr::Macro(m) => &m.mac,
+        _ => return Err("recompute_leaf_scans: second conjunct is not matches!".into()),
+    };
+    let (scrut, pat) = parse_matches(mac)?;
+    if scrut != "mode" {
+        return Err("recompute_leaf_scans: scrutinee changed".into());
+    }
+    let mut alts = Vec::new();
+    flatten_or(&pat, &mut alts);
+    let mut s = String::from("(** execute.rs recompute_leaf_scans: materialisation scans (without probes) that may be\n    factorised as a leaf scan *)\nDefinition leaf_scan_mat_mode (m : mat_mode_kind) : bool :=\n  match m with\n");
+    let mut n = 0;
+    for a in &alts {
+        s.push_str(&format!("  | {} => true\n", mode_pat(a, modes)?));
+        n += 1;
+    }
+    if n < modes.len() {
+        s.push_str("  | _ => false\n");
+    }
+    s.push_str("  end.\n");
+    Ok(s)
+}
+
+fn gen_resort_guard(exec: &syn::File) -> Result<String, String> {
+    let body = find_fn(exec, "run_plan", Some("JoinState"))?;
+    let mut f = IfFinder { ifs: Vec::new() };
+    f.visit_block(&body);
+    let mut hits = Vec::new();
+    for i in &f.ifs {
+        let c = toks(&*i.cond);
+        if c.starts_with("cur_size>") && toks(&i.then_branch).starts_with("{sort_plan_by_size(instr_order,leaf_scans,cur,") {
+            hits.push(c);
+        }
+    }
+    if hits.len() != 1 {
+        return Err(format!("run_plan: expected one re-sort guard, found {}", hits.len()));
+    }
+    // cur_size>32&&cur%3==1&&cur<instr_order.len()-1
+    let c = &hits[0];
+    let parts: Vec<&str> = c.split("&&").collect();
+    if parts.len() != 3 || parts[2] != "cur<instr_order.len()-1" {
+        return Err(format!("run_plan: re-sort guard changed: {c}"));
+    }
+    let min: u64 = parts[0].strip_prefix("cur_size>").and_then(|x| x.parse().ok()).ok_or("re-sort guard: size literal")?;
+    let rest = parts[1].strip_prefix("cur%").ok_or("re-sort guard: period")?;
+    let pq: Vec<&str> = rest.split("==").collect();
+    if pq.len() != 2 {
+        return Err("re-sort guard: period/phase".into());
+    }
+    let period: u64 = pq[0].parse().map_err(|_| "re-sort guard: period literal")?;
+    let phase: u64 = pq[1].parse().map_err(|_| "re-sort guard: phase literal")?;
+    Ok(format!(
+        "(** execute.rs run_plan: the remaining stages are re-sorted when the current estimate exceeds\n    [resort_min_size], at every stage index = [resort_phase] mod [resort_period] (not at the last stage) *)\nDefinition resort_min_size : nat := {min}.\nDefinition resort_period : nat := {period}.\nDefinition resort_phase : nat := {phase}.\n"
+    ))
+}
+
+fn layout_of(exec: &syn::File, imp: &str) -> Result<(String, String), String> {
+    let body = find_fn(exec, "push_bindings", Some(imp))?;
+    let mut ff = ForFinder { fors: Vec::new() };
+    ff.visit_block(&body);
+    let mut key = None;
+    let mut val = None;
+    for f in &ff.fors {
+        let src = toks(&*f.expr);
+        let part = if src.starts_with("spec.msg_vars.iter()") {
+            "PMsgVars"
+        } else if src.starts_with("spec.val_vars.iter()") {
+            "PValVars"
+        } else {
+            continue;
+        };
+        let b = toks(&f.body);
+        let tgt = if b.contains("scratch_key.push(") || b.contains("key.push(") {
+            &mut key
+        } else if b.contains("scratch_val.push(") || b.contains("val.push(") {
+            &mut val
+        } else {
+            return Err(format!("{imp}::push_bindings: loop over {part} feeds neither key nor value"));
+        };
+        if tgt.is_some() {
+            return Err(format!("{imp}::push_bindings: two loops feed the same part"));
+        }
+        *tgt = Some(part.to_string());
+    }
+    match (key, val) {
+        (Some(k), Some(v)) => Ok((k, v)),
+        _ => Err(format!("{imp}::push_bindings: key/value loops not recognised")),
+    }
+}
+
+fn gen_layout(exec: &syn::File) -> Result<String, String> {
+    let a = layout_of(exec, "InPlaceMaterializer")?;
+    let b = layout_of(exec, "ScopedMaterializer")?;
+    if a != b {
+        return Err("InPlaceMaterializer and ScopedMaterializer lay rows out differently".into());
+    }
+    Ok(format!(
+        "(** execute.rs push_bindings of both materialisers: a materialised row is keyed by the values of\n    [mat_key_part] and stores the values of [mat_val_part] *)\nInductive mat_part := PMsgVars | PValVars.\nDefinition mat_key_part : mat_part := {}.\nDefinition mat_val_part : mat_part := {}.\n",
+        a.0, a.1
+    ))
+}
+
+pub fn generate(repo: &std::path::Path) -> (String, Vec<String>) {
+    let plan_rel = "core-relations/src/free_join/plan.rs";
+    let exec_rel = "core-relations/src/free_join/execute.rs";
+    let mut out = String::from(
+        "(* GENERATED by /verif/translator (x_plans.rs) from core-relations/src/free_join/{plan.rs,execute.rs}; do not edit *)\nFrom Coq Require Import List Arith Bool.\nImport ListNotations.\n\n",
+    );
+    let mut rep = Vec::new();
+    let parse = |rel: &str| -> Result<syn::File, String> {
+        let src = std::fs::read_to_string(repo.join(rel)).map_err(|e| format!("{rel}: {e}"))?;
+        syn::parse_file(&src).map_err(|e| format!("{rel}: {e}"))
+    };
+    let plan = parse(plan_rel);
+    let exec = parse(exec_rel);
+
+    // 1. mat_mode_kind
+    let modes: Result<Vec<String>, String> = plan.as_ref().map_err(|e| e.clone()).and_then(|f| {
+        let e = find_enum(f, "MatScanMode")?;
+        Ok(e.variants.iter().map(|v| format!("M{}", v.ident)).collect())
+    });
+    let r1 = modes.clone().map(|ms| {
+        format!("(** plan.rs enum MatScanMode *)\nInductive mat_mode_kind := {}.\n", ms.join(" | "))
+    });
+    rep.push(line("mat_mode_kind", plan_rel, &r1));
+    if let Ok(t) = &r1 {
+        out.push_str(t);
+        out.push('\n');
+    }
+
+    // 2. join_stage_kind
+    let kinds: Result<Vec<(String, bool)>, String> = match (&plan, &modes) {
+        (Ok(f), Ok(_)) => find_enum(f, "JoinStage").map(|e| {
+            e.variants
+                .iter()
+                .map(|v| {
+                    let has_mode = match &v.fields {
+                        syn::Fields::Named(n) => n.named.iter().any(|fd| {
+                            fd.ident.as_ref().map(|i| i == "mode").unwrap_or(false) && toks(&fd.ty) == "MatScanMode"
+                        }),
+                        _ => false,
+                    };
+                    (format!("K{}", v.ident), has_mode)
+                })
+                .collect()
+        }),
+        (Err(e), _) => Err(e.clone()),
+        (_, Err(e)) => Err(e.clone()),
+    };
+    let r2 = kinds.clone().map(|ks| {
+        let cs: Vec<String> = ks.iter().map(|(k, m)| if *m { format!("{k} (m : mat_mode_kind)") } else { k.clone() }).collect();
+        format!("(** plan.rs enum JoinStage *)\nInductive join_stage_kind := {}.\n", cs.join(" | "))
+    });
+    rep.push(line("join_stage_kind", plan_rel, &r2));
+    if let Ok(t) = &r2 {
+        out.push_str(t);
+        out.push('\n');
+    }
+
+    // 3..6 need execute.rs and the two inductives
+    let deps: Result<(&syn::File, Vec<(String, bool)>, Vec<String>), String> = match (&exec, &kinds, &modes) {
+        (Ok(f), Ok(k), Ok(m)) => Ok((f, k.clone(), m.clone())),
+        (Err(e), _, _) => Err(e.clone()),
+        (_, Err(e), _) => Err(e.clone()),
+        (_, _, Err(e)) => Err(e.clone()),
+    };
+    let r3 = deps.clone().and_then(|(f, k, m)| gen_sort_barrier(f, &k, &m));
+    rep.push(line("sort_barrier", exec_rel, &r3));
+    let r4 = deps.clone().and_then(|(f, _, m)| gen_leaf_scan(f, &m));
+    rep.push(line("leaf_scan_mat_mode", exec_rel, &r4));
+    let r5 = deps.clone().and_then(|(f, _, _)| gen_resort_guard(f));
+    rep.push(line("resort_guard", exec_rel, &r5));
+    let r6 = deps.clone().and_then(|(f, _, _)| gen_layout(f));
+    rep.push(line("mat_row_layout", exec_rel, &r6));
+    for r in [&r3, &r4, &r5, &r6] {
+        if let Ok(t) = r {
+            out.push_str(t);
+            out.push('\n');
+        }
+    }
+    (out, rep)
 }
